@@ -406,8 +406,9 @@ pub(crate) fn add_int_permutation<W, R, T>(
             if k > n{
                 return xerr(ManagedXError::new("k cannot be greater than n", rt)?);
             }
-            let total = (n-k+1..=n).product();
-            if i >= total{
+            // a count beyond usize is larger than any index
+            let total = (n-k+1..=n).try_fold(1_usize, |acc, f| acc.checked_mul(f));
+            if total.map_or(false, |total| i >= total){
                 return xerr(ManagedXError::new("i too large", rt)?);
             }
             rt.can_allocate(k)?;
